@@ -215,6 +215,8 @@ def main(argv=None):
     if ev:
         print(f'  monitor events: {ev}')
     if n_viol:
+        for x in inconclusive[:3]:
+            print(f'  (also inconclusive: {x[:600]})')
         print(f'{prop}: VIOLATED ({n_viol} reported)')
         return 1
     if inconclusive:
